@@ -25,6 +25,7 @@ structure SState where
   droppedRefs : List Nat := []
   released : List Nat := []
   streamDropped : Bool := false
+  lastPending : Bool := false      -- ghost: the consumer's last poll returned `Pending` (it is parked)
   im : IM := {}
   panic : Bool := false
   deriving DecidableEq, Repr, Inhabited
@@ -90,10 +91,10 @@ def sipoll (c : Cfg) (drain : Bool) (s : SState) : SState × Out × Option Nat :
     let (s', r) := spoll c drain s
     let u : Under := match r with | .some _ => .item | .none => .none | .pending => .pending
     let (m, out) := pollNext c.strat s.im u
-    ({ s' with im := m }, out, match r with | .some f => some f | _ => none)
+    ({ s' with im := m, lastPending := decide (out = .pending) }, out, match r with | .some f => some f | _ => none)
   else
     let (m, out) := pollNext c.strat s.im .pending
-    ({ s with im := m, wake := false }, out, none)
+    ({ s with im := m, wake := false, lastPending := decide (out = .pending) }, out, none)
 
 inductive SAction
   | poll
